@@ -213,6 +213,19 @@ func runProperty(prop string, pe *PropEntry, kf *KnownFindings, repo, vd string,
 		u := GenerateUnit(w, sp, opts)
 		units = append(units, u)
 	}
+	for _, ln := range pe.Lemmas {
+		var found *LemmaSpec
+		for _, lm := range db.Lemmas {
+			if lm.Name == ln {
+				found = lm
+			}
+		}
+		if found == nil {
+			fail("lemma:"+ln, "lemma "+ln+" not found in contract files")
+			continue
+		}
+		units = append(units, GenerateLemma(w, found))
+	}
 	scratch, _ := os.MkdirTemp("", "govc-"+prop+"-")
 	defer os.RemoveAll(scratch)
 	SolveUnits(units, SolveOpts{TimeoutS: timeout, Scratch: scratch, Workers: 12})
